@@ -381,3 +381,6 @@ def run(ctx):
     r4(ctx)
     r5(ctx, T)
     r6(ctx)
+    # no over-read: the visible end is tested for exactly the bits that are consumed
+    from .c11 import r8 as read_guard_exact
+    read_guard_exact(ctx, rule="C04.R7")
